@@ -129,6 +129,39 @@ def classify_with(rules, w):
     return 'none'
 
 
+def classify_line(top_rules, end_pats, reg_pat, words):
+    """a small interpreter of the two-level structure both grammars share: at statement level the instruction / macro
+    rules are tried; a match opens the operand context, which is left where its end look-ahead matches (end of line,
+    comment, or the next operation on the same line); inside it registers are registers and other words parameters.
+    end_pats: class -> end look-ahead of the context that class opens."""
+    text = ' '.join(words)
+    out, pos, ctx = [], 0, None
+    for w in words:
+        p = text.index(w, pos)
+        pos = p + len(w)
+        if ctx is not None:
+            try:
+                # the look-ahead may start with \s*: try it from the blank in front of the word as well as at the word
+                if re.compile(end_pats[ctx]).match(text, p) or (p > 0 and re.compile(end_pats[ctx]).match(text, p - 1)):
+                    ctx = None
+            except re.error:
+                return 'bad-regex'
+        if ctx is None:
+            got = 'none'
+            for cls, pat in top_rules:
+                m = re.compile(pat).match(text, p)
+                if m is not None:
+                    got = cls if m.end() == p + len(w) else 'partial'
+                    break
+            if got in ('instruction', 'macro'):
+                ctx = got
+            out.append(got)
+        else:
+            m = re.compile(reg_pat).match(text, p) if reg_pat else None
+            out.append('register' if m is not None and m.end() == p + len(w) else 'param')
+    return out
+
+
 def check_text_files(tree, tags):
     for name, b64 in tree.items():
         data = base64.b64decode(b64)
@@ -219,6 +252,45 @@ def judge(case, irs, mr):
                         'detail': f'{what}: identifier {w!r} is classified as {got}, the vocabulary says {ms}; rules={rules}; ' + det}
             if mi != ms:
                 return {'verdict': Verdict.CORR, 'tags': tags, 'detail': f'model pattern classifies {w!r} as {mi}, spec {ms}; ' + det}
+    # (v) several operations on one line: the operand context of one operation ends where the next configured operation
+    # (instruction OR macro) starts, so each of them is classified by its own rule, and operands never are
+    ops = [(w, 'instruction') for w in case['mns']] + [(w, 'macro') for w in case['macs']]
+    r5 = random.Random(case['seed'] + 5)
+    sb_end = None
+    for rule in s.get('pop_instruction_end', []):
+        if isinstance(rule, dict) and rule.get('name') == 'instructions':
+            sb_end = rule.get('match')
+    ends = {'vscode': {'instruction': g.get('instructions', {}).get('end'), 'macro': g.get('macros', {}).get('end')},
+            'sublime': {'instruction': sb_end, 'macro': sb_end}}
+    amb = lambda w: any(w.lower() == x.lower() for x in case['regs'] + case['pre'])  # noqa
+    if len(ops) >= 2:
+        for _ in range(12):
+            k = r5.randint(2, 4)
+            seq = [r5.choice(ops) for _ in range(k)]
+            words, expect = [], []
+            for w, cls in seq:
+                words.append(r5.choice([w, w.upper()]))
+                expect.append(cls)
+                for _ in range(r5.randint(0, 2)):
+                    if case['regs'] and r5.random() < 0.5:
+                        rg = r5.choice(case['regs'])
+                        if not any(rg.lower() == o.lower() for o, _ in ops):
+                            words.append(rg)
+                            expect.append('register')
+                            continue
+                    words.append(r5.choice(['zz9', 'q7', 'foo_bar']))
+                    expect.append('param')
+            for what, pats in (('vscode', vs_pats), ('sublime', sb_pats)):
+                top = [(c, pats[c]) for c in ('instruction', 'macro') if pats[c] is not None and want[c]]
+                if any(ends[what].get(c) is None for c, _ in top):
+                    return {'verdict': Verdict.VIOLATION, 'tags': tags, 'detail': f'{what}: no end-of-operands pattern; ' + det}
+                got = classify_line(top, ends[what], pats['register'] if want['register'] else None, words)
+                if got != expect:
+                    return {'verdict': Verdict.VIOLATION, 'tags': tags,
+                            'detail': f'{what}: words of the line {" ".join(words)!r} are classified {got}, the vocabulary says {expect}; '
+                                      f'end patterns {ends[what]}; ' + det}
+        tags.append('compound-line-classification')
+
     # directive keywords
     def dir_rules_vs():
         out = []
